@@ -14,6 +14,15 @@ Sub-checks (DESIGN.md "### C01"):
                   Dict/Set displays are literal-only: judged like forbidden nodes on the computing
                   pathways, "don't care" where the string is literal data (transform; auto + pure literal);
                   string-level pathway tricks.
+  1d history      confinement may not depend on what was evaluated before: every name-universe text (name x call shape
+                  x root / depth-1 placement; all 9 placements thorough), every forbidden-construct probe at the root
+                  and in every depth-1 context (thorough: + depth 2 for one probe per class) and every trick string is
+                  evaluated as the two-call sequence  a ; b  for EVERY ordered pair of the six entry points
+                  (metabolize auto / math / logic / tool / transform, digest_glucose), b on the same engine and on a
+                  second engine of the process, back to back, each sequence in a freshly forked process that has not
+                  seen the text before.  Both evaluations are judged by the normal confinement oracle of the text's
+                  family, plus the differential clause: a text that entry point b refuses when fresh must not be
+                  accepted after a (confirmed against a brand-new engine in a new process before it is reported).
   2 totality      every input above plus hostile strings, a positional sweep (2/3/4-byte characters and lone
                   surrogates at every offset 0..71 (quick) / 0..135 (thorough) and around the length limit,
                   ASCII and same-character filler, three total lengths, five expression shapes) and
@@ -1053,6 +1062,7 @@ def awkward_results():
     return [("render", e) for e in dict.fromkeys(out)]
 
 
+ROS_MAX_STATES = 20000  # the pinned tree has < 500; a tree whose instances grow hidden state is capped, not waited for
 ENTRY_POINTS = ("metabolize", "digest_glucose")  # every public method of the engine that takes an expression string
 
 
@@ -1156,13 +1166,23 @@ class RosModel:
                 if rx != ry or self.canon(x) != self.canon(y) or self._stable_stats(x) != self._stable_stats(y):
                     raise common.HarnessError(f"ROS model clone diverges from replay at {root} {op}")
 
+    # instance fields that cannot carry behaviour: a wall-time sum and a call counter, both monotone and read only by
+    # the statistics getters.  EVERY other field of the instance (also one a later change adds: a cache, a log) is
+    # part of the canonical state, so that two histories are merged only if the whole instance agrees.
+    IGNORED_FIELDS = ("_total_atp_produced", "_operations_count")
+
     def canon(self, st):
         # exact float: rounding would make "latched" depend on which history reached the state first.  Read through
-        # the public observers (what a caller can see), not the private fields.
+        # the public observers (what a caller can see), plus a fingerprint of the remaining instance fields.
         try:
-            return (repr(st.get_ros_level()), st.get_statistics()["health"] != "healthy")
+            rest = tuple(sorted((k, sorted(v) if k == "tools" and isinstance(v, dict) else short(v, 400))
+                                for k, v in vars(st).items() if k not in self.IGNORED_FIELDS))
         except Exception:  # noqa: BLE001
-            return (repr(st._ros_accumulated), st._ros_accumulated >= st.max_ros)
+            rest = ("<instance fields not readable>",)
+        try:
+            return (repr(st.get_ros_level()), st.get_statistics()["health"] != "healthy", rest)
+        except Exception:  # noqa: BLE001
+            return (repr(getattr(st, "_ros_accumulated", None)), None, rest)
 
     def observe(self, st):
         return repr(self.canon(st))
@@ -1886,6 +1906,14 @@ def _h2_setup():
     signal.signal(signal.SIGPROF, _on_sigprof)
 
 
+def _h2_engine(where):
+    """engine A ('same'): tool registered after construction (engulf_tool); the second engine B ('other'): same options,
+    tool handed to the constructor.  Never-latching max_ros on both, so acceptance -> refusal cannot come from ROS."""
+    if where == "same":
+        return mk_engine("rec")
+    return Mitochondria(timeout_seconds=5.0, max_ros=INF, silent=True, tools=[_mk_tool("rec")])
+
+
 def _h2_seqdesc(a, b, where):
     return f"{a} on engine A; then {b} on {'engine A' if where == 'same' else 'a second engine B'}"
 
@@ -1897,7 +1925,7 @@ def h2_task(task):
     a, b, where, s, nslices = task
     recs = _H2["texts"][s::nslices]
     _h2_setup()
-    A, B = mk_engine("rec"), mk_engine("rec")
+    A, B = _h2_engine("same"), _h2_engine("other")
     steps = ((A, a, "acc1", (a,), ""),
              (A if where == "same" else B, b, "acc2", (a, b, where),
               f" [second evaluation of the same text in this process: {_h2_seqdesc(a, b, where)}]"))
@@ -1918,13 +1946,14 @@ def h2_task(task):
 
 
 def _h2_confirm(arg):
-    """child: for each text NEW engines; a == None: the single engine-fresh evaluation b; else the isolated sequence
-    a on A ; b on A / a second engine.  -> indices (into the argument's list) of the texts that were accepted"""
+    """child: for each text NEW engines; a == None: the single engine-fresh evaluation of b (on a new engine of the kind
+    the sequence's second call used); else the isolated sequence a on A ; b on A / a second engine.
+    -> indices (into the argument's list) of the texts that were accepted"""
     a, b, where, recs = arg
     _h2_setup()
     acc = []
     for i, rec in enumerate(recs):
-        A, B = mk_engine("rec"), mk_engine("rec")
+        A, B = _h2_engine("same"), _h2_engine("other")
         if a is not None:
             _h2_eval(rec, A, a)
         if _h2_eval(rec, A if where == "same" else B, b)[0]:
@@ -1970,9 +1999,9 @@ def run_hist2(ctx, nproc):
     if cands:
         by_b, by_seq = {}, {}
         for a, b, w, s, li in cands:
-            by_b.setdefault(b, set()).add((s, li))
+            by_b.setdefault((b, w), set()).add((s, li))
             by_seq.setdefault((a, b, w), set()).add((s, li))
-        jobs = [(None, b, "same", sorted(by_b[b])) for b in sorted(by_b)] + \
+        jobs = [(None, b, w, sorted(by_b[(b, w)])) for b, w in sorted(by_b)] + \
                [(a, b, w, sorted(by_seq[(a, b, w)])) for a, b, w in sorted(by_seq)]
         args = [(a, b, w, [rec_of(*k) for k in keys]) for a, b, w, keys in jobs]
         for (a, b, w, keys), (status, payload) in zip(jobs, run_children(_h2_confirm, args, 0, max(1, nproc))):
@@ -1985,13 +2014,13 @@ def run_hist2(ctx, nproc):
             accd = {keys[i] for i in payload}
             for k in keys:
                 if a is None:
-                    confirmed_fresh_refusal[(b, k)] = k not in accd
+                    confirmed_fresh_refusal[(b, w, k)] = k not in accd
                 else:
                     isolated[(a, b, w, k)] = k in accd
     groups = {}
     n_legit = 0
     for a, b, w, s, li in cands:
-        if not confirmed_fresh_refusal.get((b, (s, li))):
+        if not confirmed_fresh_refusal.get((b, w, (s, li))):
             n_legit += 1  # an engine-fresh call accepts the text: the text-fresh refusal came from OTHER texts' history
             continue
         groups.setdefault((a, b, bool(isolated.get((a, b, w, (s, li))))), []).append((w, s, li))
@@ -2036,7 +2065,7 @@ def replay_hist2(case):
 
         def one(_):
             _h2_setup()
-            A, B = mk_engine("rec"), mk_engine("rec")
+            A, B = _h2_engine("same"), _h2_engine("other")
             v = _h2_eval(rec, A, seq[0])[1]
             if len(seq) == 3:
                 v = _h2_eval(rec, A if seq[2] == "same" else B, seq[1])[1]
@@ -2047,7 +2076,7 @@ def replay_hist2(case):
         return [tuple(x) for x in payload]
     a, b, w = case["a"], case["b"], case["where"]
     if case["sub"] == "hist2-diff":
-        (s1, p1), (s2, p2) = run_children(_h2_confirm, [(None, b, "same", [rec]), (a, b, w, [rec])], 0, 1)
+        (s1, p1), (s2, p2) = run_children(_h2_confirm, [(None, b, w, [rec]), (a, b, w, [rec])], 0, 1)
         if s1 != "done" or s2 != "done":
             raise common.HarnessError(f"replay children did not finish: {s1} {s2}")
         if not p1 and p2:
@@ -2060,7 +2089,7 @@ def replay_hist2(case):
     _H2.clear()
     _H2["texts"] = h2_texts(case["tier"])
     (s1, p1), (s2, p2) = run_children(lambda j: (_h2_confirm if j[0] is None else h2_task)(j[1]),
-                                      [(None, (None, b, "same", [rec])), (1, (a, b, w, case["slice"], nslices))], 0, 1)
+                                      [(None, (None, b, w, [rec])), (1, (a, b, w, case["slice"], nslices))], 0, 1)
     if s1 != "done" or s2 != "done":
         raise common.HarnessError(f"replay children did not finish: {s1} {s2}")
     if not p1 and case["li"] in p2["acc2"]:
@@ -2494,13 +2523,13 @@ def run(ctx):
     ros_depth = 30 if quick else 60
     try:
         RosModel().selfcheck_clone()
-        ros = explore.explore(RosModel(), ctx, ros_depth, nproc=1, label="ros")
+        ros = explore.explore(RosModel(), ctx, ros_depth, nproc=1, label="ros", validate_canon=40, max_states=ROS_MAX_STATES)
     except common.HarnessError as e:
-        if not ctx.violation_count:
-            raise
-        ctx.note(f"ROS history search skipped: {e} (violations were already found; the engine's state is not confined "
-                 f"to the instance, so state snapshots are not faithful on this tree)")
-        ros = {"states": 1, "transitions": 1, "fixpoint": False, "depth_completed": 0}
+        # deferred: only ends the run with exit 2 if no engine of this check finds a violation at all
+        ctx.defer_harness_error(f"ROS history search: {e}")
+        ctx.note(f"ROS history search skipped: {e} (if the engine's state is not confined to the instance - which the "
+                 f"history families report - state snapshots are not faithful on this tree)")
+        ros = {"states": 1, "transitions": 1, "fixpoint": False, "depth_completed": 0, "capped": False}
     total += ros["transitions"]
     lap("ros")
     # ---- 3 resource
@@ -2514,9 +2543,8 @@ def run(ctx):
         try:
             outcome, viol = judge_resource(cls, expr, status, payload, tl)
         except common.HarnessError as e:
-            if not ctx.violation_count:
-                raise
-            ctx.note(f"undecided resource case (the run already has violations): {e}")
+            ctx.defer_harness_error(str(e))
+            ctx.note(f"undecided resource case: {e}")
             continue
         ctx.outcomes.add(("resource",) + outcome)
         total += 1
@@ -2616,6 +2644,10 @@ def run(ctx):
         resource_engine_timeout_s=ENGINE_TIMEOUT,
         resource_as_limit_bytes=AS_LIMIT,
     )
+    if ros.get("capped"):
+        ctx.coverage["exhaustive"] = False
+        ctx.coverage["caps_hit"] = (ctx.coverage.get("caps_hit", "") and ctx.coverage["caps_hit"] + "; ") + (
+            f"ROS history search stopped at {ROS_MAX_STATES} canonical states (instances carry growing state)")
     if not ros["fixpoint"]:
         ctx.coverage["caps_hit"] = (ctx.coverage.get("caps_hit", "") and ctx.coverage["caps_hit"] + "; ") + (
             f"ROS history search is depth-bounded ({ros['depth_completed']}): the level is a float "
@@ -2649,6 +2681,13 @@ def run(ctx):
         "differences in the other direction (ROS latch, zero timeout) are legitimate and not judged",
         "for timeout values whose 6x multiple is not a waitable finite time (> 30 s, inf, nan) exceeding the 3 s CPU "
         "limit on a cheap expression is noted, not judged",
+        "history of the confinement clause: sequences are two calls of the SAME text (every ordered pair of entry points, "
+        "same / second engine, tool set ['rec'], baseline options; the second engine gets its tool through the constructor), "
+        "run back to back in a process that is new to the text while the engines carry the history of the slice's other "
+        "texts; longer sequences of one text and other tool sets are not enumerated; only refusal -> acceptance is "
+        "judged (acceptance -> refusal is the ROS latch's legitimate direction); the position-independence oracle of the "
+        "name universe (needs the root answers of another text) is not re-applied per sequence - the differential clause "
+        "subsumes it for everything that is refused when fresh",
         "history prefixes are depth 2 in both tiers; the positional sweep and the deep-nesting children are not crossed "
         "with the timeout dimension",
     ]
